@@ -115,7 +115,7 @@ Proof.
   assert (Olt' : nth_error h lt = Some o) by (rewrite <- (ext_nth _ _ _ X Llt); exact Olt).
   assert (Vb : forall l, In l (val_refs v) -> (l < length h1)%nat).
   { destruct v as [z|l0]; simpl; [tauto|]. intros l [<-|[]]. destruct V as [V|V]; [lia|].
-    apply ext_length in X. assert (l0 < length h)%nat by (eapply reach_lt; eauto). lia. }
+    pose proof (ext_length _ _ X) as Lx. assert (l0 < length h)%nat by (eapply reach_lt; [exact W | exact R | exact V]). lia. }
   repeat split.
   - apply wf_upd; auto. intros l Hl. destruct (Refs l Hl) as [Hl'|Hl'].
     + eapply W1; eauto.
@@ -131,7 +131,7 @@ Proof.
         -- left. eapply reach_step; eauto.
         -- destruct v as [z|l0]; simpl in Hl'; [tauto|]. destruct Hl' as [<-|[]]. destruct V as [V|V]; [right; lia | left; exact V].
       * apply Nat.eqb_neq in E. destruct IH as [IH|IH].
-        -- left. assert (m < length h)%nat by (eapply reach_lt; eauto).
+        -- left. assert (m < length h)%nat by (eapply reach_lt; [exact W | exact R | exact IH]).
            eapply reach_step; eauto. rewrite <- (ext_nth _ _ _ X) by auto. exact Hom.
         -- right. eapply C1; eauto.
 Qed.
@@ -201,11 +201,12 @@ Proof.
       destruct v as [z|l]; [exact Logic.I|]. pose proof (ext_length _ _ X) as Lx.
       destruct V as [V|[V|V]].
       + lia.
-      + split; [eapply closed_above_reach; eauto; lia|]. assert (l < length h)%nat by (eapply reach_lt; eauto; lia). lia.
+      + split; [eapply closed_above_reach; [exact C | | exact V]; lia|].
+        assert (l < length h)%nat by (eapply reach_lt; [exact W | | exact V]; lia). lia.
       + destruct s; simpl in *; try tauto. destruct V as [<-|[]]. lia.
     - destruct Src as [-> ->]. split; [apply ext_refl|]. split; [exact W|]. split; [exact C | exact Logic.I]. }
   destruct S as (X & W1 & C1 & V).
-  assert (Nlt : (N <= lt)%nat) by (eapply closed_above_reach; eauto; lia).
+  assert (Nlt : (N <= lt)%nat) by (eapply closed_above_reach; [exact C1 | | exact Rlt]; lia).
   assert (Vb : forall l, In l (val_refs v) -> (N <= l < length h1)%nat).
   { destruct v as [z|l0]; simpl; [tauto|]. intros l [<-|[]]. exact V. }
   repeat split.
